@@ -127,6 +127,10 @@ func (mr *msgReader) resetFlate() {
 	}
 	if mr.flateBufio == nil {
 		mr.flateBufio = getBufioReader(mr.readFunc)
+	} else {
+		// Bytes that follow the final deflate block of the previous message
+		// must not be taken for the beginning of this one.
+		mr.flateBufio.Reset(mr.readFunc)
 	}
 
 	if mr.flateContextTakeover() {
